@@ -543,8 +543,11 @@ Section XPadding.
   Proof.
     apply (tr_mouse nx nd self kx xpadding_like xpadding_keeps).
     - rewrite nd_is_old. apply padding_mouse.
-    - intros s p col row focus E Hf Hp _ _ _. destruct (xpadding_fixed_inv s E Hf) as [Ev [Hl [Hr _]]].
+    - intros s p col row focus E Hf Hp _ _ Hin. destruct (xpadding_fixed_inv s E Hf) as [Ev [Hl [Hr [Ew _]]]].
       unfold nx, xpadding_node in *. cbn [n_place n_route] in *. rewrite E, Ev in *. one_placed Hp.
+      unfold in_rect in Hin. fold xi in Hin.
+      destruct (col <? pa_left o) eqn:E1; [lia|].
+      destruct (fst (xpadding_pack o xi) - pa_right o <=? col) eqn:E2; [lia|]. cbn [orb].
       eexists. f_equal. f_equal; lia.
   Qed.
 
